@@ -117,8 +117,17 @@ def many_chunk_cases(etl, rng, ctx, prefix, thorough=False):
     import petl.config as config
     from petl.comparison import Comparable
     keys = [None, 1, 2, 'a', (1, 'x'), 2.5]
-    sizes = [(260, 1), (530, 2)] if not thorough else [(260, 1), (530, 2), (900, 3), (1200, 1)]
-    for n, bs in sizes:
+    sizes = [(260, 1), (530, 2), (1100, 1)] if not thorough else [(260, 1), (530, 2), (900, 3), (1200, 1), (2300, 2)]
+    # the last entry of `sizes` is run a second time with this process's soft limit on open files lowered to just above what the
+    # sort needs: a guard against "too many open files" must not change the result
+    import resource
+    soft0, hard0 = resource.getrlimit(resource.RLIMIT_NOFILE)
+    for n, bs, low in [(a, b, False) for a, b in sizes] + [(sizes[1][0] * 2, 1, True)]:
+        if low:
+            try:
+                resource.setrlimit(resource.RLIMIT_NOFILE, (min(hard0, 2 * n - 200) if hard0 > 0 else 2 * n - 200, hard0))
+            except Exception:   # noqa
+                continue
         rows = [[rng.choice(keys), i] for i in range(n)]
         T = [['k', 'i']] + rows
         for rev in (False, True):
@@ -151,6 +160,8 @@ def many_chunk_cases(etl, rng, ctx, prefix, thorough=False):
                             break
                 finally:
                     config.sort_buffersize = saved
+        if low:
+            resource.setrlimit(resource.RLIMIT_NOFILE, (soft0, hard0))
 
 
 def view_operand_cases(etl, rng, ctx, ops, ncases, header=('x', 'xy', 'v'), pools=None):
